@@ -36,6 +36,7 @@ type Engine struct {
 
 	specDeclCache map[string]string
 	unstable      map[*ssa.Global]string // globals written or address-taken outside init
+	rewritten     map[string]bool        // heap arrays (F$..., D$...) with a store that is not the initialisation of a fresh object
 	reg           *regions
 	warnings      []string
 	fpCache       map[string]*footprint
@@ -92,6 +93,17 @@ func LoadEngine(repo, specDir string) (*Engine, error) {
 		e.funcs[fnKey(f)] = f
 	}
 	e.computeStableGlobals()
+	e.computeWriteOnce()
+	if debugWriteOnce {
+		var ks []string
+		for k := range e.rewritten {
+			if strings.Contains(k, "node_") || strings.Contains(k, "triple_") || strings.Contains(k, "literal_") || strings.Contains(k, "predicate_") || strings.Contains(k, "semantic_Construct") {
+				ks = append(ks, k)
+			}
+		}
+		sort.Strings(ks)
+		fmt.Fprintln(os.Stderr, "rewritten arrays:", ks)
+	}
 	e.computeRegions()
 	pkgDirs := map[string]string{}
 	for path, p := range e.pkgs {
@@ -369,4 +381,87 @@ func (e *Engine) computeStableGlobals() {
 			}
 		}
 	}
+}
+
+
+// computeWriteOnce: a heap array (one struct field, or the pointees of one type) is WRITE-ONCE when
+// every store to it in the whole loaded program goes through the address of an object allocated in
+// the same function (the initialisation of a composite literal or of a fresh local): such a store
+// never changes the value an already existing object holds, so a call that "may modify everything"
+// still leaves the array unchanged for the objects that existed before it. Every other store marks
+// the array as rewritten. (reflect and unsafe are not considered: assumed unused on these types.)
+func (e *Engine) computeWriteOnce() {
+	e.rewritten = map[string]bool{}
+	var freshBase func(v ssa.Value, depth int) bool
+	freshBase = func(v ssa.Value, depth int) bool {
+		if depth > 3 {
+			return false
+		}
+		switch x := v.(type) {
+		case *ssa.Alloc:
+			return true
+		case *ssa.FieldAddr:
+			// a field of an embedded struct of a fresh object
+			return freshBase(x.X, depth+1)
+		}
+		return false
+	}
+	mark := func(t types.Type) {
+		if t == nil {
+			return
+		}
+		if st, ok := t.Underlying().(*types.Struct); ok && !isTimeType(t) {
+			for k := 0; k < st.NumFields(); k++ {
+				e.rewritten[fieldArrName(t, st.Field(k).Name())] = true
+			}
+			return
+		}
+		e.rewritten[derefArrName(t)] = true
+	}
+	for f := range e.allFuncs {
+		for _, b := range f.Blocks {
+			for _, in := range b.Instrs {
+				st, ok := in.(*ssa.Store)
+				if !ok {
+					continue
+				}
+				switch a := st.Addr.(type) {
+				case *ssa.FieldAddr:
+					if freshBase(a.X, 0) {
+						continue
+					}
+					stT := ptrElem(a.X.Type())
+					if stT == nil {
+						continue
+					}
+					if u, ok := stT.Underlying().(*types.Struct); ok {
+						e.rewritten[fieldArrName(stT, u.Field(a.Field).Name())] = true
+					}
+				case *ssa.Alloc:
+					// initialisation / assignment of a local cell: the cell is private to its function and
+					// its closures, handled by the private-cell rule; it is still a rewrite of the array
+					if !singleStore(a) {
+						mark(ptrElem(a.Type()))
+					}
+				case *ssa.IndexAddr, *ssa.Global:
+					// slice elements and globals live in other arrays
+				default:
+					mark(ptrElem(st.Addr.Type()))
+				}
+			}
+		}
+	}
+}
+
+func init() {
+	if os.Getenv("GOWP_DEBUG_WRITEONCE") != "" {
+		debugWriteOnce = true
+	}
+}
+
+var debugWriteOnce bool
+
+// writeOnce: see computeWriteOnce.
+func (e *Engine) writeOnce(arr string) bool {
+	return (strings.HasPrefix(arr, "F$") || strings.HasPrefix(arr, "D$")) && !e.rewritten[arr]
 }
